@@ -59,9 +59,35 @@ def _export(cfg):
   return job
 
 
+def _one_report_per_signature(ctx):
+  """The engine keeps the replay data of the first 50 reports only; thousands of
+  mismatches with the same signature (one defect, many inputs) would hide the
+  other defects.  Pass on the first report of each signature, count the rest."""
+  orig = ctx.report
+  seen = collections.Counter()
+
+  def report(sig, rep):
+    key = core.canon(sig)
+    seen[key] += 1
+    if seen[key] > 1 and not any(core.sig_matches(e["signature"], sig) for e in ctx.known):
+      return "violation"
+    return orig(sig, rep)
+  ctx.report = report
+  return seen
+
+
 def run(ctx):
   quick = ctx.tier == "quick"
   ctx.level = "exploration"
+  seen = _one_report_per_signature(ctx)
+  try:
+    _run(ctx, quick)
+  finally:
+    if seen:
+      ctx.notes["mismatches_per_signature"] = dict(seen)
+
+
+def _run(ctx, quick):
   ctx.rule = ("every transition of Addr.tla's state graph (constructor from each textual/binary form, then each "
               "operation; each stateless helper call) and of AddrOrder.tla's (comparison histories) exported by TLC "
               "and replayed on the real classes, plus TLC-simulated long behaviours and TLC-validated random traces; "
@@ -78,9 +104,14 @@ def run(ctx):
       "lengths; IPv6: all 256 zero/non-zero group patterns, all 129 prefix lengths on boundary bases and bit-flipped "
       "partners (quick: 8 flip positions, thorough: all 128 on 4 bases)"]
   agg = collections.Counter()
-  # 1. model-check + export every transition (spec -> code)
+  # 1. model-check + export every transition (spec -> code); thorough: also long
+  #    random behaviours (constructors and operations chained on one object)
   jobs = [_export(c) for c in EXPORTS[ctx.tier]]
-  results = _parallel(jobs, 10)
+  nsim = 0 if quick else 400
+  if nsim:
+    jobs.append(lambda: tlc.run("addr", "MCAddr", "EX_sim.cfg", workers=1, coverage=False, simulate=dict(num=nsim),
+                                depth=17, seed=ctx.seed + 1, tag="C16", timeout=3000))
+  results = _parallel(jobs, 11)
   for cfg, (r, behs) in zip(EXPORTS[ctx.tier], results):
     ctx.add_model("Addr %s (all invariants/action properties, every transition exported)" % cfg, r)
     for a, (_, n) in r.coverage.items():
@@ -92,15 +123,13 @@ def run(ctx):
   fake.coverage = {a: (0, n) for a, n in agg.items()}
   tlc.require_coverage(fake, ACTIONS, "Addr.tla (all export runs)")
   ctx.notes["transitions_per_action"] = dict(agg)
-  # 2. long random behaviours: constructors and operations chained on one object
-  num = 150 if quick else 3000
-  r = tlc.run("addr", "MCAddr", "EX_sim.cfg", workers=1, coverage=False, simulate=dict(num=num), depth=13,
-              seed=ctx.seed + 1, tag="C16", timeout=3000)
-  behs = r.tagged("H")
-  if len(behs) < num // 2:
-    raise tlc.TLCError("simulation exported %d behaviours" % len(behs))
-  st = core.replay(ctx, ADAPTER, behs, chunk=25)
-  ctx.notes["replay_sim"] = dict(behaviours=len(behs), depth=12, **st)
+  if nsim:
+    r = results[-1]
+    behs = r.tagged("H")
+    if len(behs) < nsim // 4:
+      raise tlc.TLCError("simulation exported %d behaviours" % len(behs))
+    st = core.replay(ctx, ADAPTER, behs, chunk=25)
+    ctx.notes["replay_sim"] = dict(behaviours=len(behs), min_depth=7, max_depth=16, **st)
   # 3. ordering / equality / hashing
   for k in ("4", "6", "Mac"):
     r = tlc.run("addr", "MCAddrOrder", "MC_order_%s.cfg" % k, tag="C16")
@@ -442,7 +471,10 @@ def drive(arg):
             t += "|%d" % (d[0] * 256 + d[1])
           while rnd.random() < 0.35:
             t = _damage(rnd, t)
-          emit("StrToDpid", dict(cs=list(t)), dict(text=t))
+          obs = emit("StrToDpid", dict(cs=list(t)), dict(text=t))
+          if isinstance(obs, dict) and obs.get("ok") == "T" and not isinstance(obs.get("d"), list):
+            # a number beyond 64 bits: a well-formed observation that equals no datapath id
+            tr[-1].update(obs=dict(ok="T", d=[-1]), wf=True)
   return tr
 
 
@@ -480,7 +512,10 @@ def drive_order(arg):
     a, b = rnd.choice(regs), rnd.choice(regs)
     da = {f: a[f] for f in ("r", "k", "form", "text", "v")}
     db = {f: b[f] for f in ("r", "k", "form", "text", "v")}
-    obs = ad.order_step("Cmp", dict(a=da, b=db))
+    try:
+      obs = ad.order_step("Cmp", dict(a=da, b=db))
+    except Exception as e:       # recorded as a malformed observation, never hidden
+      obs = {"adapter-exception": type(e).__name__ + ": " + str(e)[:100]}
     wf = (isinstance(obs, dict) and set(obs) == {"eq", "ne", "lt", "le", "gt", "ge", "heq"}
           and all(obs[f] in ok_vals for f in ("eq", "ne", "lt", "le", "gt", "ge")) and obs["heq"] in ("eq", "ne"))
     ev = dict(a="Cmp", args=dict(a=dict(k=a["k"], v=a["v"]), b=dict(k=b["k"], v=b["v"])),
